@@ -336,7 +336,13 @@ def gen_case(rng, tier, force_key=None):
             if rng.random() < 0.25:  # a decoy in the raw view, after the encoded region
                 trailing = P.filler(rng, rng.randrange(0, 40)) + P.rx1(mkcfg(rng).ljust(4096, b"\0"), rng.choice([0x69, 0x2E, key]))
                 meta["decoys"] += 1
-            payload, off = P.xorencode(img, rng.randbytes(4), stub=P.filler(rng, rng.randrange(0, 300)), marker=True,
+            stub_len, marker = rng.randrange(0, 300), True
+            if rng.random() < 0.2:
+                # the nonce at the far end of the documented detection range (offsets 0..1023), with and without the marker
+                marker = bool(trailing) or rng.random() < 0.4
+                stub_len = rng.randrange(1008, 1024) - (3 if marker else 0)
+                meta["stub"] = f"far:{'marker' if marker else 'size-only'}"
+            payload, off = P.xorencode(img, rng.randbytes(4), stub=P.filler(rng, stub_len), marker=marker,
                                        size_ok=not trailing, trailing=trailing)
             views = [("xor", img + _decoded_trailing(payload, off, len(img))), ("raw", payload)]
     hows = ["bytes"]
